@@ -3,7 +3,7 @@
 A *case* is plain JSON data:
 
   {"kind": "pair" | "triple" | "single" | "harvest",
-   "factory": "plain" | "schema", "cls": <grammar class id>,
+   "factory": "plain" | "schema" | "installed", "cls": <grammar class id>,
    "specs": [spec, ...], "modes": [construction mode, ...], "ow": bool}
 
 `run_case(case)` builds every operand fresh from its spec in its construction mode, runs the real
@@ -690,6 +690,21 @@ def minimize(case, finding):
                     cur, curf, progress = cand, f, True
                     break
             if progress:
+                break
+    # canonical witness: replace each operand by the earliest instance of the class (enumeration
+    # order: fewest fields, falsy values first) that still shows the failure
+    full = space(cur["factory"], cur["cls"], 10**9)
+    keys = [json.dumps(s, sort_keys=True) for s in full]
+    for i in range(len(cur["specs"])):
+        k = json.dumps(cur["specs"][i], sort_keys=True)
+        upto = keys.index(k) if k in keys else len(full)
+        for s2 in full[:upto]:
+            if len(s2) > len(cur["specs"][i]):
+                break
+            cand = dict(cur, specs=cur["specs"][:i] + [s2] + cur["specs"][i + 1 :])
+            f = _still(cand, law, err)
+            if f:
+                cur, curf = cand, f
                 break
     if cur["kind"] != "harvest":
         order = M.modes_for(cur["factory"])
